@@ -165,6 +165,7 @@ Definition sc_property (te : tenv) (t : ty) (name : string) : bool :=
   | TStruct sn =>
       fuel_ok te (fuel0 te) (TStruct sn) && negb (emb_multi te (fuel0 te) (TStruct sn) name)
       && negb (unexported_member te sn name)
+      && match field_type te (fuel0 te) (TStruct sn) name with LFound _ => true | _ => false end
   | TMap kt et => s_str kt && zero_ok et
   | _ => false
   end.
@@ -205,8 +206,8 @@ Definition sc_arg (a : expr) (t pin : ty) : bool :=
 (* what Go guarantees of a function type: the last input of a variadic one is a slice, a method
    has its receiver *)
 Definition sc_sig (ins : list ty) (v m : bool) : bool :=
-  (if v then match last ins TNilT with TSlice _ => true | _ => false end else true)
-  && (if m then match ins with _ :: _ => true | [] => false end else true).
+  (if m then match ins with _ :: _ => true | [] => false end else true)
+  && (if v then match last (if m then tl ins else ins) TNilT with TSlice _ => true | _ => false end else true).
 
 (* not: C03-builtin-elem-type *)
 Definition sc_closure (b : builtin) (el tb : ty) : bool :=
@@ -274,7 +275,8 @@ Fixpoint scope (cols : list ty) (e : expr) {struct e} : bool :=
       match lookup_name c name with
       | Some tg =>
           match tg_ty tg with
-          | TFunc ins v [o] => sc_sig ins v (tg_method tg) && sargs (param_ty ins v (tg_method tg)) 0%nat args
+          | TFunc ins v [o] =>
+              negb (tg_amb tg) && sc_sig ins v (tg_method tg) && sargs (param_ty ins v (tg_method tg)) 0%nat args
           | _ => false                                       (* not: C03-unchecked-arguments *)
           end
       | None => false
